@@ -94,7 +94,78 @@ def C20(ctx):
     return ctx.finish(min_evals=3000, min_buckets=25)
 
 
-CHECKS = {"C07": C07, "C08": C08, "C09": C09, "C10": C10, "C17": C17, "C19": C19, "C20": C20}
+WRAP16 = ["-Wl,--wrap=toupper,--wrap=tolower,--wrap=strcasecmp,--wrap=strncasecmp,--wrap=__ctype_toupper_loc,--wrap=__ctype_tolower_loc"]
+ENV06 = os.path.join(build.VERIF, "data", "c06_envelope.txt")
+
+
+def C04(ctx):
+    ctx.rule = ("case = one encode with the real encoder: N from {0,1,2,3, every power-of-two block size 64..16384 +-1, random up to 60k/250k}, "
+                "random partition of the submission (one call, 1-sample calls, 1024s, random 1..8192, huge), eager or lazy blockout, 12 signal kinds, "
+                "channels 1-8 (thorough: 16/64/255), 23 rates incl. every template edge, VBR q -0.1..1 or managed (abr/max/min/cbr) via both set-up styles; "
+                "evaluation = one of: packet-log ordering check (granules monotone, <= N, last == N with eos, no earlier eos), packet-API decode count == N, "
+                "seekable vorbisfile (total == N, tell after open == 0, read count == N), streaming vorbisfile count == N; bucket = (N class, channel class, "
+                "rate band, rate-control kind, partition kind, lazy) with every clause held")
+    ctx.assumptions = TRUST_COMMON + ["per-call submissions are capped at 131072 samples (larger single calls overflow the stack in _preextrapolate_helper: outside the explored range)"]
+    ctx.run("san", "encmon", "c04", _n(ctx.tier, 1500, 20000), extra_ld=WRAP16)
+    return ctx.finish(min_evals=1500, min_buckets=100)
+
+
+def C06(ctx):
+    ctx.rule = ("case = one signal (enveloped multi-tones, sweep, white noise, irregular click trains, silence/noise/click bursts; per-channel distinct content) "
+                "x (rate, channels) encoded at three increasing qualities (thorough: also managed modes, 3-8 channels) and decoded by the packet API; evaluation = one "
+                "encode judged: all samples finite; per channel the cross-correlation with the input over lags -4608..4608 (dense within +-64, step 16 beyond) peaks at "
+                "lag 0 (judged when the peak's normalised correlation is >= 0.6); every output channel correlates best with its own input channel; peak <= 6x input peak (largest observed on this tree: 3.4x, white noise at the lowest quality); for multi-tones SNR >= the committed envelope "
+                "data/c06_envelope.txt[rate band, quality, channel class] (calibrated on this tree: observed minimum - 6 dB, forced monotone in quality) and SNR of the "
+                "same signal does not fall by more than 6 dB when quality rises by two steps; bucket = (signal, channel class, rate band, quality) with every clause held")
+    ctx.assumptions = TRUST_COMMON + ["the SNR envelope is an empirical regression bound calibrated on the pinned tree (after the fix: commits), not a psychoacoustic truth",
+                                      "channel identity is asserted for q >= 0.1 only (point stereo below that)",
+                                      "degradations inside the 6 dB margin, or purely perceptual ones, are invisible to this monitor"]
+    ctx.run("san", "encmon", "c06", _n(ctx.tier, 360, 6000), extra=[ENV06], extra_ld=WRAP16)
+    if not os.path.exists(ENV06):
+        ctx.harness_errors.append("missing " + ENV06)
+    return ctx.finish(min_evals=300, min_buckets=60)
+
+
+def C14(ctx):
+    ctx.rule = ("(1) real managed encodes: rates 8-96 kHz, 1-6 channels, limits {max only, min only, both, CBR}, reservoir 0.01-4 s of bits and bias 0..1 through "
+                "OV_ECTL_RATEMANAGE2_SET, demand-swinging signals (silence/noise/click bursts, 10x over-range); limits are read from the public vorbis_info "
+                "(bitrate_upper/lower), the reservoir from RATEMANAGE2_GET, W of every packet from vorbis_packet_blocksize; (2) direct drive: real blocks from "
+                "vorbis_analysis_blockout, the 15 candidate packets overwritten with adversarial size vectors (monotone, reversed, all-equal, all-huge, all-tiny, "
+                "random, switching) before vorbis_bitrate_addblock; evaluation = one max-subarray window check over ALL contiguous packet runs of one stream: "
+                "sum(bits) - rate_limit*sum(blocksize/2)/rate - 0.5*short_per_long per packet <= reservoir + 8 (and symmetric for min); bucket = (limit kind, reservoir "
+                "class, bias class, block mix, signal | pattern)")
+    ctx.assumptions = TRUST_COMMON + ["duration of a packet = blocksize/2 samples (the manager's own accounting); true durations differ only at the two edge blocks of a run and a violation "
+                                      "inside that edge allowance is keyed separately", "slack 0.5*short_per_long bits per packet for the manager's rint() of its per-block target, +8 bits",
+                                      "direct drive includes lib/codec_internal.h to reach vorbis_block_internal.packetblob[]"]
+    ctx.run("san", "encmon", "c14", _n(ctx.tier, 200, 4000), extra_ld=WRAP16)
+    ctx.run("san", "encmon", "c14d", _n(ctx.tier, 480, 20000), extra_ld=WRAP16)
+    return ctx.finish(min_evals=400, min_buckets=60)
+
+
+def C15(ctx):
+    ctx.rule = ("case = one set-up attempt: entry point (setup_vbr, setup_managed, init, init_vbr) x channels (-1..300, every value visited round-robin) x rate "
+                "(common rates, every template edge +-2, -1/0/1/2^31-1/..., log-dense 4k-200k) x quality (-0.2..1.2 step .05, NaN, +-Inf, +-1e9) or bitrate triple "
+                "(consistent, inconsistent, zero, wild) + a script of 0-11 vorbis_encode_ctl requests over all 12 request codes and unknown codes with plausible and "
+                "wild struct contents (NaN, negative, huge, NULL where documented) before and after setup_init; on success analysis_init, headerout, header decode, "
+                "encode 0/1/700/5000 samples, clear twice; evaluation = one set-up/init call judged (return in {0,OV_EINVAL,OV_EIMPL,OV_EFAULT}; failed one-step call "
+                "leaves an all-zero vorbis_info; success reports requested channels/rate); bucket = (outcome, entry point, channel class, rate class)")
+    ctx.assumptions = TRUST_COMMON + ["vorbis_encode_ctl is not called on an info the library has already cleared (outside the documented typestate)"]
+    ctx.run("san", "encmon", "c15", _n(ctx.tier, 6000, 200000), extra_ld=WRAP16)
+    return ctx.finish(min_evals=5000, min_buckets=40)
+
+
+def C16(ctx):
+    ctx.rule = ("case = one comment list (0..1500/5000 entries; entries: tagged values, empty strings, arbitrary bytes 1-255, embedded NULs with explicit lengths, NULL entries, "
+                "values up to 80k/300k bytes; tags with mixed case, prefixes of one another, empty tag, non-ASCII letters) written by vorbis_analysis_headerout and by "
+                "vorbis_commentheader_out (must agree byte for byte), parsed independently by the harness, read back by vorbis_synthesis_headerin; then 50/80 queries x "
+                "5 indices against a 10-line ASCII-only model; libc case mapping is replaced (link-time --wrap) by Turkish/Latin-1 style tables that also count calls; "
+                "evaluation = one comparison (packet parse, read-back, query_count, query); bucket = (count class, explicit|cstr, null entries, writer, size class)")
+    ctx.assumptions = TRUST_COMMON + ["queries are issued on the read-back structure, and on the source structure only when it has no NULL entries"]
+    ctx.run("san", "encmon", "c16", _n(ctx.tier, 1500, 60000), extra_ld=WRAP16)
+    return ctx.finish(min_evals=20000, min_buckets=20)
+
+
+CHECKS = {"C04": C04, "C06": C06, "C14": C14, "C15": C15, "C16": C16, "C07": C07, "C08": C08, "C09": C09, "C10": C10, "C17": C17, "C19": C19, "C20": C20}
 
 _SAN = ("sanitizer findings (ASan, UBSan bounds/null/div-by-zero/pointer-overflow subset, LeakSanitizer), fatal signals and "
         "CPU-budget overruns in the same runs also fail the check")
@@ -131,6 +202,31 @@ META.update({
                           "target, audio bit-identical to the linear half-rate (or, after switching off, full-rate) decode at every read; " + _SAN,
             "level_note": "Trusted: harness cursor logic. 'Even position' is read relative to the containing link's start (the only reading under which audio at that "
                           "position exists when a link starts on an odd sample); refusal on 64-sample blocks awaits crafted streams."},
+})
+META.update({
+    "C04": {"technique": "runtime monitor: conservation/ordering checker over the encoder's packet log joined with packet-API and vorbisfile decode counts, under ASan+UBSan",
+            "level_text": "Held on the executions observed: thousands of encodes over N (0,1,2,3, block-size multiples +-1, random), submission partitions, signals, channels, "
+                          "every rate band and its edges, VBR and managed modes; granule positions monotone, last packet == N with eos, decoded counts == N through three decode paths, "
+                          "ov_pcm_total == N, tell after open == 0; " + _SAN,
+            "level_note": "Trusted: libogg, harness muxer and counters. Single submissions above 131072 samples are outside the explored range."},
+    "C06": {"technique": "runtime monitor: cross-correlation lag, channel identity, peak and calibrated SNR-envelope checks on encode->decode round trips, under ASan+UBSan",
+            "level_text": "Held on the executions observed: every decoded sample finite; correlation peak at lag 0 for every sharply correlated channel; output channels match their "
+                          "own inputs; peak within 6x; multi-tone SNR above an envelope calibrated on this tree (min over 20 000 encodes - 6 dB, monotone in quality); " + _SAN,
+            "level_note": "The envelope (data/c06_envelope.txt) is an empirical regression bound, not a psychoacoustic truth; degradations inside the 6 dB margin are invisible."},
+    "C14": {"technique": "runtime monitor: all-windows (max-subarray) reservoir checker over packet sizes of real managed encodes and of a directly driven rate manager, under ASan+UBSan",
+            "level_text": "Held on the executions observed: for every contiguous run of packets of every stream, bits above max-rate x duration (below min-rate x duration) stay "
+                          "within the configured reservoir (+ rounding slack); worst windows reach 98-100% of the reservoir, so the bound is tight; includes adversarial candidate-size "
+                          "vectors fed to the real manager; " + _SAN,
+            "level_note": "Trusted: limits as reported by the public vorbis_info, reservoir as reported by OV_ECTL_RATEMANAGE2_GET; direct drive reaches into vorbis_block_internal."},
+    "C15": {"technique": "runtime monitor: boundary-value and random sweep of the set-up argument space and ctl scripts with return-domain/struct-state assertions, under ASan+UBSan",
+            "level_text": "Held on the executions observed: every channel count -1..300, rates across and around all template edges, qualities incl. NaN/Inf, bitrate triples, "
+                          "all ctl requests with wild arguments before/after setup_init; returns in the documented set, failed one-step calls leave a zeroed info, successes "
+                          "report the requested channels/rate and survive init, headerout, encoding and double clears; " + _SAN,
+            "level_note": "Trusted: harness. Accepted configurations with an absurd hard minimum rate (> 24 bits/sample/channel) are not encoded (megabyte packets of padding)."},
+    "C16": {"technique": "runtime monitor: comment lists through both header writers, independent packet parse, decoder read-back and an ASCII-only query model, with hostile libc case tables, under ASan+UBSan",
+            "level_text": "Held on the executions observed: byte-exact round trip of thousands of comment lists (0-5000 entries, embedded NULs, NULL entries, 300 kB values), vendor string, "
+                          "query/query_count equal to the model for mixed-case, non-ASCII and prefix tags; no libc case-mapping call reaches the hostile tables; " + _SAN,
+            "level_note": "Trusted: harness packet parser and 10-line model. Locale independence is shown by link-time replacement of libc case mapping, since only C/POSIX locales exist here."},
 })
 LEVEL = {"C12": "fault_enumeration"}
 
